@@ -276,6 +276,11 @@ class LoopTr:
 
     def subscript(self, e, env):
         a, at = self.expr(e.value, env)
+        sl = e.slice
+        if isinstance(sl, ast.Slice) and sl.lower is None and sl.upper is None and is_list(at) \
+                and isinstance(sl.step, ast.UnaryOp) and isinstance(sl.step.op, ast.USub) \
+                and isinstance(sl.step.operand, ast.Constant) and sl.step.operand.value == 1:
+            return f'({a}.reverse)', at            # x[::-1]
         i = self.const_index(e)
         if is_pair(at):
             if i in (0, -2): return f'{a}.1', at[1]
@@ -409,6 +414,10 @@ class LoopTr:
             a, at = self.expr(args[0], env)
             if is_list(at) and at[1] is not None: return f'(Py.enumerate {a})', L(P(N, at[1]))
             raise Untranslatable('enumerate of ' + str(at))
+        if fn == 'reversed' and plain and len(args) == 1:
+            a, at = self.expr(args[0], env)
+            if is_list(at): return f'({a}.reverse)', at
+            raise Untranslatable('reversed of ' + str(at))
         if fn == 'len' and plain and len(args) == 1:
             a, at = self.expr(args[0], env)
             if is_list(at) or is_dict(at): return f'{a}.length', N
@@ -756,10 +765,28 @@ class LoopTr:
             return self.stmt(build, env, ind, cont)
         raise Untranslatable('assignment ' + ast.unparse(s)[:80])
 
+    def decided(self, test, env):
+        """True / False when the tests already taken on this path decide `test`, else None"""
+        key = '$known:' + ast.unparse(test)
+        if key in env: return env[key][0]
+        if isinstance(test, ast.UnaryOp) and isinstance(test.op, ast.Not):
+            d = self.decided(test.operand, env)
+            return None if d is None else (not d)
+        if isinstance(test, ast.BoolOp):
+            ds = [self.decided(v, env) for v in test.values]
+            if isinstance(test.op, ast.And):
+                if any(d is False for d in ds): return False
+                if all(d is True for d in ds): return True
+            else:
+                if any(d is True for d in ds): return True
+                if all(d is False for d in ds): return False
+        return None
+
     def if_(self, s, rest, env, ind, done):
         key = '$known:' + ast.unparse(s.test)
-        if key in env:
-            return self.block((list(s.body) if env[key][0] else list(s.orelse)) + rest, env, ind, done)
+        d = self.decided(s.test, env)
+        if d is not None:
+            return self.block((list(s.body) if d else list(s.orelse)) + rest, env, ind, done)
         saved = self.binders; self.binders = []
         try:
             c = self.truthy(s.test, env)
